@@ -247,6 +247,22 @@ def rule_k_new(ctx):
                 continue
             side = op_role(ctx, b, bop)
             want = MAIN if cval else OLD
+            if side != want:
+                # a copy made arm by arm: `match *self { Main(ref x) => Main(x.clone()), Old(ref x) => Old(x.clone()) }` — the constant label
+                # is the one the branch has just read off the source, and the raw bucket is (a clone of) that same source's
+                srcs = set()
+                bp = b.op_path(bop)
+                if bp is not None and [t for t, _ in ro.classify(bp)][-1:] == ["BKT"]:
+                    srcs.add(Path(bp.root, bp.strip_refs().elems[:-1]).strip_refs().key())
+                d = b.source_def(bop)
+                if d is not None and d[1] == "call":
+                    c = ctx.call_at(b, d[0].bb)
+                    q = c.arg_path(0)
+                    if c.method == "clone" and q is not None and [t for t, _ in ro.classify(q)][-1:] == ["BKT"]:
+                        srcs.add(Path(q.root, q.strip_refs().elems[:-1]).strip_refs().key())
+                if srcs and any(bk in srcs and sd == want and edge_dominates(b, e, loc.bb) for e, (bk, sd) in flag_edges(ctx, b).items()):
+                    R.inst(fn=b.path, site=b.where(loc), flag=bool(cval), verdict="copy of another located bucket, label read off it on this branch")
+                    continue
             R.inst(fn=b.path, site=b.where(loc), flag=bool(cval), bucket_from=side, verdict="ok" if side == want else "VIOLATION")
             if side != want:
                 R.viol("%s:%s" % (key, "main" if cval else "old"), b.where(loc),
@@ -328,6 +344,58 @@ def flag_accessors(ctx):
                 continue
             if p is not None and p.root == 1 and [x for x, _ in ro.classify(p)] == ["FLAG"]:
                 out[b.path] = neg
+        # `match *self { Main(_) => true, Old(_) => false }` written over the flag: a switch on the own flag whose arms return constants
+        for b in ctx.facts.bodies.values():
+            if b.kind == "Closure" or b.arg_count != 1 or b.path in out or ctx.facts.types[b.locals[0]["ty"]].get("k") != "bool":
+                continue
+            if [c for c in ctx.calls(b) if not b.is_cleanup(c.loc.bb)]:
+                continue
+            sws = [bb for bb in b.reachable() if b.term(bb)["k"] == "switch" and not b.is_cleanup(bb)]
+            if len(sws) != 1:
+                continue
+            t = b.term(sws[0])
+            p = b.op_path(t["discr"]) if t["discr"]["k"] in ("copy", "move") else None
+            if p is None or p.strip_refs().root != 1 or [x for x, _ in ro.classify(p)][-1:] != ["FLAG"]:
+                continue
+            arms = {}
+            for v, tb in t["targets"]:
+                arms[bool(v)] = tb
+            if len(arms) == 1:
+                arms[not list(arms)[0]] = t["otherwise"]
+            res = {}
+            for val, start in arms.items():
+                cs = set()
+                for x in b.reach_from([start]):
+                    for st in b.stmts(x):
+                        if st["k"] == "assign" and st["place"]["local"] == 0 and not st["place"]["proj"]:
+                            cs.add(b.op_const(st["rv"]["op"]) if st["rv"]["k"] == "use" else "?")
+                res[val] = cs
+            if res.get(True) == {1} and res.get(False) == {0}:
+                out[b.path] = False
+            elif res.get(True) == {0} and res.get(False) == {1}:
+                out[b.path] = True
+        # an accessor of an accessor: `fn will_move(&self) -> bool { !self.is_in_main() }`
+        for _ in range(3):
+            for b in ctx.facts.bodies.values():
+                if b.kind == "Closure" or b.arg_count != 1 or b.path in out or ctx.facts.types[b.locals[0]["ty"]].get("k") != "bool":
+                    continue
+                cs = [c for c in ctx.calls(b) if not b.is_cleanup(c.loc.bb)]
+                if len(cs) != 1 or cs[0].local_callee() is None or cs[0].local_callee().path not in out or cs[0].dest is None:
+                    continue
+                q = cs[0].arg_path(0)
+                if q is None or q.strip_refs().root != 1 or q.fields():
+                    continue
+                ds = [d for d in b.defs().get(0, []) if not b.is_cleanup(d[0].bb)]
+                if len(ds) != 1:
+                    continue
+                inner = out[cs[0].local_callee().path]
+                if ds[0][1] == "call" and ds[0][0] == cs[0].loc:
+                    out[b.path] = inner
+                elif ds[0][1] == "assign":
+                    rv = ds[0][2]["rv"]
+                    src = rv["a"] if (rv["k"] == "unop" and rv["op"] == "Not") else rv["op"] if rv["k"] == "use" else None
+                    if src is not None and src["k"] in ("copy", "move") and not src["place"]["proj"] and src["place"]["local"] == cs[0].dest["local"]:
+                        out[b.path] = (not inner) if rv["k"] == "unop" else inner
         return out
     return ctx.memo("flag_accessors", build)
 
